@@ -5352,45 +5352,33 @@ impl BytecodeVM {
             }
 
             // NOTE: review
-            Op::CreateRestArray { dst, start_index } => {
-                // Create an array from remaining iterator elements
-                // This is used for rest patterns like [...rest] = arr
-                // The iterator state is assumed to be in the register before this one
-                // We need to collect all remaining elements from the current iterator
-
-                // For now, this opcode is context-dependent - it needs the iterator
-                // that was being used. We'll check if there's an internal iterator in scope.
-                // This is a simplified implementation that works with the pattern compiler.
-
-                // Look for the iterator in a previous register (typically dst - 3 based on pattern)
-                // This is a heuristic - the pattern compiler allocates registers in a specific order
-                let iter_reg = dst.saturating_sub(3);
-                let iter_val = self.get_reg(iter_reg);
-
+            Op::CreateRestArray { dst, iterator } => {
+                // Create an array from the remaining elements of the iterator a destructuring
+                // pattern is reading from (rest patterns like [a, ...rest] = iterable): whatever
+                // kind of iterator it is, it is drained the way IteratorNext steps it
                 let mut elements = Vec::new();
-
-                if let JsValue::Object(iter_obj) = iter_val {
-                    // Check for internal array iterator
-                    let array_prop = iter_obj
+                let elements_guard = interp.heap.create_guard();
+                let done_key = PropertyKey::String(interp.intern("done"));
+                let value_key = PropertyKey::String(interp.intern("value"));
+                loop {
+                    self.execute_op(interp, Op::IteratorNext { dst, iterator })?;
+                    let JsValue::Object(step) = self.get_reg(dst).clone() else {
+                        return Err(JsError::type_error("Iterator result is not an object"));
+                    };
+                    let done = step
                         .borrow()
-                        .get_property(&PropertyKey::String(interp.intern("__array__")));
-                    if let Some(JsValue::Object(arr_ref)) = array_prop {
-                        let index = match iter_obj
-                            .borrow()
-                            .get_property(&PropertyKey::String(interp.intern("__index__")))
-                        {
-                            Some(JsValue::Number(n)) => n as usize,
-                            _ => start_index as usize,
-                        };
-
-                        if let Some(elems) = arr_ref.borrow().array_elements() {
-                            for i in index..elems.len() {
-                                if let Some(val) = elems.get(i) {
-                                    elements.push(val.clone());
-                                }
-                            }
-                        }
+                        .get_property(&done_key)
+                        .map(|v| v.to_boolean())
+                        .unwrap_or(false);
+                    if done {
+                        break;
                     }
+                    let value = step
+                        .borrow()
+                        .get_property(&value_key)
+                        .unwrap_or(JsValue::Undefined);
+                    value.guard_by(&elements_guard);
+                    elements.push(value);
                 }
 
                 let guard = interp.heap.create_guard();
